@@ -1577,7 +1577,7 @@ func (schema *Schema) visitJSONNumber(settings *schemaValidationSettings, value 
 	}
 
 	// "exclusiveMinimum"
-	if v := schema.ExclusiveMin; v && !(*schema.Min < value) {
+	if v := schema.ExclusiveMin; v && schema.Min != nil && !(*schema.Min < value) {
 		if settings.failfast {
 			return errSchema
 		}
@@ -1595,7 +1595,7 @@ func (schema *Schema) visitJSONNumber(settings *schemaValidationSettings, value 
 	}
 
 	// "exclusiveMaximum"
-	if v := schema.ExclusiveMax; v && !(*schema.Max > value) {
+	if v := schema.ExclusiveMax; v && schema.Max != nil && !(*schema.Max > value) {
 		if settings.failfast {
 			return errSchema
 		}
@@ -1649,7 +1649,7 @@ func (schema *Schema) visitJSONNumber(settings *schemaValidationSettings, value 
 	}
 
 	// "multipleOf"
-	if v := schema.MultipleOf; v != nil {
+	if v := schema.MultipleOf; v != nil && *v != 0 {
 		// "A numeric instance is valid only if division by this keyword's
 		//    value results in an integer."
 		if bigFloat := big.NewFloat(value / *v); !bigFloat.IsInt() {
